@@ -1031,3 +1031,211 @@ Proof.
   pose proof (pw_in_text_all (wdepth (reflow L t)) (reflow L t) (le_n _) W) as A. pose proof (reflow_fits L t H) as B.
   apply Forall_forall. intros x Hx. rewrite Forall_forall in A, B. split; [apply A; exact Hx|apply B; exact Hx].
 Qed.
+
+(* ---- normalize_whitespace=True: every list marker is followed by ONE space, the budget shrinks accordingly ---- *)
+Fixpoint norm (t : wtree) : wtree :=
+  match t with
+  | WQuote ts => WQuote (map norm ts)
+  | WItem mk pad ts => WItem mk 1 (map norm ts)
+  | WMore mk pad ts bl next => WMore mk 1 (map norm ts) bl (norm next)
+  | other => other
+  end.
+
+Lemma first_char_norm t : first_char (norm t) = first_char t.
+Proof. destruct t; reflexivity. Qed.
+Lemma is_item_norm t : w_is_item (norm t) = w_is_item t.
+Proof. destruct t; reflexivity. Qed.
+Lemma marker_norm t : w_marker (norm t) = w_marker t.
+Proof. destruct t; reflexivity. Qed.
+Lemma after_marker_norm mk ts : after_marker mk (map norm ts) = after_marker mk ts.
+Proof. destruct mk as [b|]; [|reflexivity]. destruct ts as [|t r]; [reflexivity|]. cbn [map after_marker]. rewrite first_char_norm. reflexivity. Qed.
+
+Lemma wwf_norm : forall f t, (wdepth t <= f)%nat -> wwf t = true -> wwf (norm t) = true.
+Proof.
+  assert (Kids : forall f, (forall t, (wdepth t <= f)%nat -> wwf t = true -> wwf (norm t) = true) ->
+                 forall ts n, (S (fold_right (fun t m => Nat.max (wdepth t) m) 0%nat ts) <= S n)%nat -> (n <= f)%nat -> forallb wwf ts = true -> forallb wwf (map norm ts) = true).
+  { intros f IH ts n Hd Hn Hall. apply forallb_forall. intros x Hx. apply in_map_iff in Hx as (t & <- & Ht). rewrite forallb_forall in Hall.
+    apply IH; [pose proof (wdepth_children t ts n Ht Hd); lia|apply Hall; exact Ht]. }
+  induction f as [|f IH].
+  - intros t Hd Hw. destruct t as [gs|ch n content|lv c body|c n|ts|mk pad ts|mk pad ts bl next]; try (cbn [wdepth] in Hd; lia); exact Hw.
+  - intros t. induction t as [gs|ch n content|lv c body|c n|ts|mk pad ts|mk pad ts bl next IHn]; intros Hd Hw; try exact Hw.
+    + cbn [wwf norm] in *. apply andb_true_iff in Hw as [Hs Hall]. cbn [wdepth] in Hd.
+      rewrite (wseq_reflow norm ts is_item_norm), Hs. apply (Kids f IH ts f Hd (le_n _) Hall).
+    + cbn [wwf norm] in *. repeat rewrite andb_true_iff in Hw. destruct Hw as [[[[[Hmk _] _] Hs] Hall] Ham]. cbn [wdepth] in Hd.
+      rewrite Hmk, (wseq_reflow norm ts is_item_norm), Hs, after_marker_norm, Ham, (Kids f IH ts f Hd (le_n _) Hall). reflexivity.
+    + cbn [wwf norm] in *. repeat rewrite andb_true_iff in Hw. destruct Hw as [[[[[[[[Hmk _] _] Hs] Hall] Ham] Hin] Hk] Hwn]. cbn [wdepth] in Hd.
+      rewrite Hmk, (wseq_reflow norm ts is_item_norm), Hs, after_marker_norm, Ham, (Kids f IH ts f ltac:(lia) (le_n _) Hall).
+      rewrite is_item_norm, Hin, marker_norm, Hk, (IHn ltac:(lia) Hwn). reflexivity.
+Qed.
+
+Lemma wdepth_norm : forall t, wdepth (norm t) = wdepth t.
+Proof.
+  fix IH 1. intros t. destruct t as [gs|ch n content|lv c body|c n|ts|mk pad ts|mk pad ts bl next]; try reflexivity; cbn [norm wdepth].
+  - f_equal. induction ts as [|x r IHr]; [reflexivity|]. cbn [map fold_right]. rewrite IH, IHr. reflexivity.
+  - f_equal. induction ts as [|x r IHr]; [reflexivity|]. cbn [map fold_right]. rewrite IH, IHr. reflexivity.
+  - rewrite IH. f_equal. f_equal. induction ts as [|x r IHr]; [reflexivity|]. cbn [map fold_right]. rewrite IH, IHr. reflexivity.
+Qed.
+
+Section RLNorm.
+  Let o := mkMopts true.
+
+  (* a list item written with normalize_whitespace: the marker, one space, the blocks behind them *)
+  Lemma item_render_norm L mk pad0 chtoks inner lo (blank : bool) : marker_ok mk -> good_b inner = true ->
+    flat_map (block_lines o (Some (L - mwidth mk 1))) chtoks = map bare inner ->
+    block_lines o (Some L) (ListItem (mkItem (marker_str mk) 0 (Z.of_nat (length (marker_str mk) + pad0)) lo) (chtoks ++ (if blank then [BlankLine] else []))) =
+    map bare (item_lines mk 1 inner) ++ (if blank then [[]] else []).
+  Proof.
+    intros Hmk Hg E.
+    destruct (good_lines _ Hg) as (c0 & body0 & rest & El & Hc0 & _ & _ & _ & _ & _).
+    destruct (marker_first mk Hmk) as (m0 & mr & Em & Hm0).
+    cbn [block_lines sub_opt normalize_ws i_prepend i_indentation i_leader]. unfold o. cbn [normalize_ws].
+    unfold mwidth, o in E. replace (len (marker_str mk) + 1) with (Z.of_nat (length (marker_str mk) + 1)) by (unfold len; lia).
+    rewrite flat_map_app, E, El.
+    assert (Eb : flat_map (block_lines (mkMopts true) (Some (L - Z.of_nat (length (marker_str mk) + 1)))) (if blank then [BlankLine] else []) = map bare (if blank then [SBlank] else [])) by (destruct blank; reflexivity).
+    rewrite Eb, <- map_app. cbn [map or_blank bare repeat app].
+    unfold item_lines. rewrite Em.
+    set (w := (length (m0 :: mr) + 1)%nat).
+    assert (Ew : spaces (Z.of_nat w) = repeat 32 w) by (unfold spaces; rewrite Nat2Z.id; reflexivity).
+    assert (Ep : spaces (Z.of_nat w - len (m0 :: mr) - 0) = repeat 32 1) by (unfold spaces, len, w; f_equal; lia).
+    unfold prefix_lines. rewrite Ew. destruct w as [|w'] eqn:Ew0; [unfold w in Ew0; cbn [length] in Ew0; lia|].
+    cbn [repeat prefix_from]. change (32 :: repeat 32 w') with (repeat 32 (S w')).
+    rewrite (prefix_from_false_embed _ (S w') (rest ++ if blank then [SBlank] else []) (Nat.lt_0_succ _)).
+    rewrite Ep. cbn [spaces Z.to_nat repeat app map bare nonempty orb].
+    rewrite !map_app. destruct blank; cbn [map embed_s bare]; rewrite <- ?app_assoc; cbn [app]; rewrite ?app_nil_r; reflexivity.
+  Qed.
+End RLNorm.
+
+Section RLNormAll.
+  Let o := mkMopts true.
+
+  Lemma leaf_any_opts o1 o2 L t : match t with Paragraph _ | Heading _ _ _ | CodeFence _ | ThematicBreak _ => True | _ => False end ->
+    block_lines o1 L t = block_lines o2 L t.
+  Proof. destruct t; intros H; try contradiction; reflexivity. Qed.
+
+  Definition RLN (L : Z) (t : wtree) : Prop := block_lines o (Some L) (tok_of true (to_f t)) = map bare (spell (to_f (reflow L (norm t)))).
+
+  Lemma rln_seq L ts ts' : Forall2 (fun t t' => block_lines o (Some L) (tok_of true t) = map bare (spell t')) ts ts' -> ts <> [] ->
+    flat_map (block_lines o (Some L)) (tok_seq true ts) = map bare (join_blank (map spell ts')).
+  Proof.
+    intros H Hne. rewrite bare_join.
+    assert (G : forall ts ts', Forall2 (fun t t' => block_lines o (Some L) (tok_of true t) = map bare (spell t')) ts ts' ->
+                flat_map (fun y => [] :: block_lines o (Some L) (tok_of true y)) ts = flat_map (fun y => [] :: map bare y) (map spell ts')).
+    { induction 1 as [|t t' r r' E _ IH]; [reflexivity|]. cbn [flat_map map]. rewrite E, IH. reflexivity. }
+    destruct H as [|t t' r r' E Hr]; [contradiction|]. cbn [map].
+    assert (F : forall r0, flat_map (block_lines o (Some L)) (match r0 with [] => [] | _ => blank_tok true ++ tok_seq true r0 end) =
+                           flat_map (fun y => [] :: block_lines o (Some L) (tok_of true y)) r0).
+    { induction r0 as [|y r0 IH]; [reflexivity|]. cbn [blank_tok app flat_map block_lines tok_seq]. f_equal. f_equal. exact IH. }
+    change (tok_seq true (t :: r)) with (tok_of true t :: match r with [] => [] | _ => blank_tok true ++ tok_seq true r end).
+    cbn [flat_map]. rewrite E. f_equal. rewrite F. apply G. exact Hr.
+  Qed.
+
+  Lemma nkids_render L ts : ts <> [] -> Forall (RLN L) ts ->
+    flat_map (block_lines o (Some L)) (tok_seq true (map to_f ts)) = map bare (join_blank (map spell (map to_f (map (reflow L) (map norm ts))))).
+  Proof.
+    intros Hne H. apply rln_seq; [|destruct ts; [contradiction|discriminate]].
+    induction H as [|t r E _ IH]; [constructor|]. cbn [map]. constructor; [exact E|]. destruct r; [constructor|]. apply IH. discriminate.
+  Qed.
+
+  Lemma nkids_good L ts : wseq_ok ts = true -> forallb wwf ts = true ->
+    good_b (join_blank (map spell (map to_f (map (reflow L) (map norm ts))))) = true.
+  Proof.
+    intros Hs Hall. apply kids_good.
+    - rewrite (wseq_reflow norm ts is_item_norm). exact Hs.
+    - apply forallb_forall. intros x Hx. apply in_map_iff in Hx as (t & <- & Ht). rewrite forallb_forall in Hall. apply (wwf_norm (wdepth t) t (le_n _) (Hall t Ht)).
+  Qed.
+
+  Lemma rln_all : forall f t L, (wdepth t <= f)%nat -> wwf t = true -> RLN L t.
+  Proof.
+    assert (Leaf : forall t L, match t with WQuote _ | WItem _ _ _ | WMore _ _ _ _ _ => false | _ => true end = true -> wwf t = true -> RLN L t).
+    { intros t L Hl Hw. unfold RLN. assert (En : norm t = t) by (destruct t; try discriminate; reflexivity). rewrite En.
+      rewrite <- (rl_all (wdepth t) t L (le_n _) Hw). unfold o. apply leaf_any_opts.
+      destruct t as [gs|ch n content|lv c body|c n|ts|mk pad ts|mk pad ts bl next]; try discriminate; cbn [to_f tok_of]; try exact I.
+      unfold para_f. destruct (map (join SP) gs) as [|[|? ?] ?]; exact I. }
+    assert (Kids : forall f, (forall t L, (wdepth t <= f)%nat -> wwf t = true -> RLN L t) ->
+                   forall ts L n, (S (fold_right (fun t m => Nat.max (wdepth t) m) 0%nat ts) <= S n)%nat -> (n <= f)%nat -> forallb wwf ts = true -> Forall (RLN L) ts).
+    { intros f IH ts L n Hd Hn Hall. apply Forall_forall. intros t Ht. rewrite forallb_forall in Hall.
+      apply IH; [pose proof (wdepth_children t ts n Ht Hd); lia|apply Hall; exact Ht]. }
+    induction f as [|f IH].
+    - intros t L Hd Hw. destruct t as [gs|ch n content|lv c body|c n|ts|mk pad ts|mk pad ts bl next]; try (cbn [wdepth] in Hd; lia); (apply Leaf; [reflexivity|exact Hw]).
+    - intros t. induction t as [gs|ch n content|lv c body|c n|ts|mk pad ts|mk pad ts bl next IHn]; intros L Hd Hw; try (apply Leaf; [reflexivity|exact Hw]).
+      + cbn [wwf] in Hw. apply andb_true_iff in Hw as [Hs Hall]. cbn [wdepth] in Hd.
+        assert (Hne : ts <> []) by (destruct ts; [discriminate|discriminate]).
+        pose proof (nkids_render (L - 2) ts Hne (Kids f IH ts (L - 2) f Hd (le_n _) Hall)) as E. unfold o in E.
+        unfold RLN. cbn [to_f norm reflow tok_of block_lines sub_opt spell].
+        change ((fix seq (ts0 : list ftree) : list tok := match ts0 with [] => [] | t :: r => tok_of true t :: match r with [] => [] | _ :: _ => blank_tok true ++ seq r end end) (map to_f ts)) with (tok_seq true (map to_f ts)).
+        unfold o. rewrite E. apply prefix_quote.
+      + cbn [wwf] in Hw. repeat rewrite andb_true_iff in Hw. destruct Hw as [[[[[Hmk Hp1] Hp4] Hs] Hall] Ham]. cbn [wdepth] in Hd.
+        assert (Hne : ts <> []) by (destruct ts; [discriminate|discriminate]).
+        pose proof (nkids_render (L - mwidth mk 1) ts Hne (Kids f IH ts _ f Hd (le_n _) Hall)) as E.
+        unfold RLN. cbn [to_f norm reflow tok_of spell].
+        change ((fix seq (ts0 : list ftree) : list tok := match ts0 with [] => [] | t :: r => tok_of true t :: match r with [] => [] | _ :: _ => blank_tok true ++ seq r end end) (map to_f ts)) with (tok_seq true (map to_f ts)).
+        pose proof (item_render_norm L mk pad (tok_seq true (map to_f ts)) _ (negb true && (1 <? Z.of_nat (length (map to_f ts)))) false
+                      (marker_ok_reflect mk Hmk) (nkids_good _ ts Hs Hall) E) as RI. rewrite !app_nil_r in RI.
+        cbn [block_lines flat_map]. rewrite app_nil_r. exact RI.
+      + cbn [wwf] in Hw. repeat rewrite andb_true_iff in Hw. destruct Hw as [[[[[[[[Hmk Hp1] Hp4] Hs] Hall] Ham] Hin] Hk] Hwn]. cbn [wdepth] in Hd.
+        assert (Hne : ts <> []) by (destruct ts; [discriminate|discriminate]).
+        assert (Hd' : (S (fold_right (fun t m => Nat.max (wdepth t) m) 0%nat ts) <= S f)%nat) by lia.
+        pose proof (nkids_render (L - mwidth mk 1) ts Hne (Kids f IH ts _ f Hd' (le_n _) Hall)) as E.
+        specialize (IHn L ltac:(lia) Hwn). unfold RLN in IHn |- *.
+        destruct (wok_all (wdepth next) next (le_n _) Hwn) as (Wn & _ & _).
+        assert (Hin' : is_item (to_f next) = true) by (rewrite is_item_to_f; exact Hin).
+        destruct (tok_of_chain_is_list true (to_f next) Hin' Wn) as (s2 & lo2 & items & E2).
+        cbn [to_f norm reflow tok_of spell]. rewrite E2 in *.
+        change ((fix seq (ts0 : list ftree) : list tok := match ts0 with [] => [] | t :: r => tok_of true t :: match r with [] => [] | _ :: _ => blank_tok true ++ seq r end end) (map to_f ts)) with (tok_seq true (map to_f ts)).
+        pose proof (item_render_norm L mk pad (tok_seq true (map to_f ts)) _ (if bl then negb true else negb true && (1 <? Z.of_nat (length (map to_f ts)))) bl
+                      (marker_ok_reflect mk Hmk) (nkids_good _ ts Hs Hall) E) as RI. cbn [blank_tok].
+        match goal with |- block_lines ?oo (Some L) (List ?s ?l (?x :: items)) = _ =>
+          change (block_lines oo (Some L) (List s l (x :: items))) with (block_lines o (Some L) x ++ block_lines o (Some L) (List s2 lo2 items)) end.
+        unfold o. rewrite RI. unfold o in IHn. rewrite IHn. rewrite !map_app. destruct bl; cbn [map bare app]; rewrite <- ?app_assoc; reflexivity.
+  Qed.
+End RLNormAll.
+
+(* MarkdownRenderer(max_line_length=L, normalize_whitespace=True): the text of the tree with every marker followed by one space, reflowed *)
+Theorem reflow_renders_normalized L t : wwf t = true ->
+  block_lines (mkMopts true) (Some L) (tok_of true (to_f t)) = map bare (spell (to_f (reflow L (norm t)))) /\
+  wwf (reflow L (norm t)) = true /\ wf_b (to_f (reflow L (norm t))) = true.
+Proof.
+  intros H. split; [apply (rln_all (wdepth t) t L (le_n _) H)|].
+  pose proof (wwf_norm (wdepth t) t (le_n _) H) as Wn. apply (reflow_in_fragment L (norm t) Wn).
+Qed.
+
+(* the padding of a marker is not seen in the HTML *)
+Lemma is_fpara_norm t : is_fpara (to_f (norm t)) = is_fpara (to_f t).
+Proof. destruct t; reflexivity. Qed.
+Lemma first_fpara_norm ts : first_fpara (map to_f (map norm ts)) = first_fpara (map to_f ts).
+Proof. destruct ts as [|t r]; [reflexivity|]. cbn [map first_fpara]. apply is_fpara_norm. Qed.
+Lemma last_fpara_norm ts : last_fpara (map to_f (map norm ts)) = last_fpara (map to_f ts).
+Proof. unfold last_fpara. rewrite <- !map_rev. destruct (rev ts) as [|t r]; [reflexivity|]. cbn [map]. apply is_fpara_norm. Qed.
+Lemma chain_loose_norm t : chain_loose (to_f (norm t)) = chain_loose (to_f t).
+Proof.
+  induction t as [gs|ch n content|lv c body|c n|ts|mk pad ts|mk pad ts bl next IHn]; try reflexivity.
+  - cbn [to_f norm chain_loose]. rewrite !map_length. reflexivity.
+  - cbn [to_f norm chain_loose]. rewrite !map_length, IHn. reflexivity.
+Qed.
+
+Definition HN (t : wtree) : Prop := forall o b, html_f o b (to_f (norm t)) = html_f o b (to_f t) /\ html_lis o b (to_f (norm t)) = html_lis o b (to_f t).
+
+Lemma html_norm_all : forall f t, (wdepth t <= f)%nat -> HN t.
+Proof.
+  assert (Kids : forall f, (forall t, (wdepth t <= f)%nat -> HN t) ->
+                 forall ts o b n, (S (fold_right (fun t m => Nat.max (wdepth t) m) 0%nat ts) <= S n)%nat -> (n <= f)%nat ->
+                 map (html_f o b) (map to_f (map norm ts)) = map (html_f o b) (map to_f ts)).
+  { intros f IH ts o b n Hd Hn. rewrite !map_map. apply map_ext_in. intros t Ht. apply (IH t ltac:(pose proof (wdepth_children t ts n Ht Hd); lia) o b). }
+  induction f as [|f IH].
+  - intros t Hd. destruct t as [gs|ch n content|lv c body|c n|ts|mk pad ts|mk pad ts bl next]; try (cbn [wdepth] in Hd; lia); intros o b; split; reflexivity.
+  - intros t. induction t as [gs|ch n content|lv c body|c n|ts|mk pad ts|mk pad ts bl next IHn]; intros Hd; try (intros o b; split; reflexivity).
+    + cbn [wdepth] in Hd. intros o b. cbn [to_f norm html_f html_lis]. split; [|reflexivity]. rewrite (Kids f IH ts o false f Hd (le_n _)). reflexivity.
+    + cbn [wdepth] in Hd. intros o b. cbn [to_f norm html_f html_lis]. rewrite !map_length, first_fpara_norm, last_fpara_norm. split.
+      * rewrite (Kids f IH ts o _ f Hd (le_n _)). reflexivity.
+      * rewrite (Kids f IH ts o _ f Hd (le_n _)). reflexivity.
+    + cbn [wdepth] in Hd. intros o b. cbn [to_f norm html_f html_lis]. rewrite !map_length, first_fpara_norm, last_fpara_norm, chain_loose_norm.
+      specialize (IHn ltac:(lia)). split.
+      * rewrite (Kids f IH ts o _ f ltac:(lia) (le_n _)). destruct (IHn o (negb (bl || (1 <? Z.of_nat (length ts)) || chain_loose (to_f next)))) as [_ E2]. rewrite E2. reflexivity.
+      * rewrite (Kids f IH ts o _ f ltac:(lia) (le_n _)). destruct (IHn o b) as [_ E2]. rewrite E2. reflexivity.
+Qed.
+
+Theorem normalized_same_html o L t : wwf t = true -> unl (html_f o false (to_f (reflow L (norm t)))) = unl (html_f o false (to_f t)).
+Proof.
+  intros H. rewrite (reflow_same_html o L (norm t) (wwf_norm (wdepth t) t (le_n _) H)).
+  destruct (html_norm_all (wdepth t) t (le_n _) o false) as [E _]. rewrite E. reflexivity.
+Qed.
